@@ -370,6 +370,8 @@ class World:
                         w.ev(pid, "block-begin")
                         w.release.wait(instr[1] / 1000)
                         w.ev(pid, "block-end")
+                    elif op in ("mark-begin", "mark-end"):
+                        w.ev(pid, op)
                     elif op == "shutdown":
                         rec = {"op": "shutdown", "by": "payload:%d:threading" % pid, "t_call": w.now()}
                         try:
